@@ -1,5 +1,278 @@
-import Plonk.Model.Composer
+/-
+  Property C10 — the bitwise AND / XOR components return exactly the truncated result.
+
+  "For every width of up to 127 bit pairs, the logic components are satisfiable for all inputs
+  and the witness they return equals the bitwise AND (respectively XOR) of the low 2·pairs bits
+  of the canonical values of both inputs.  No satisfying assignment exists in which the returned
+  witness holds any other value."
+
+  Conventions.  `c` is the composer state before the call, `isXor = false` is
+  `append_logic_and::<pairs>`, `isXor = true` is `append_logic_xor::<pairs>`;
+  `c' := ((appendLogicComponent pairs a b isXor).run c).2` the state after the call and
+  `out := (…).1` the returned witness index; `w : Nat → Nat` is an arbitrary assignment of values
+  to witness indices (everything a prover may choose: the three accumulator chains, the product
+  wires, and every helper witness of the two truncation bindings); `c''.rowsHoldW w c.gates.size
+  c'.gates.size` says that the rows appended by the call hold under `w` (read in `c'` itself or
+  in any later state `c''`); `toF : Nat → F = ZMod R`; `logicOp false x y = x &&& y`,
+  `logicOp true x y = x ^^^ y` (`LogicRows.lean`); `x % 4 ^ pairs` is the low `2·pairs` bits.
+
+  Everything is proved at full strength for every `pairs ≤ Generated.LOGIC_MAX_PAIRS = 127`
+  (including `pairs = 0`); there is no `_partial` theorem.
+
+  Forced hypotheses (findings; none of them is a defect of the Rust code):
+    * `WF c` (every stored witness value is `< R`, and no public input is recorded for a row that
+      does not exist yet — `PiFresh`): invariant of every state reachable from `initialized`
+      (`initialized_wf`), preserved by the component (`logic_extends`).  The `PiFresh` half is what
+      the logic rows need (a stale sparse public input would leak into the fresh rows); the
+      `val < R` half is only used by the glue of `bind_truncation_split` (`Trunc.lean`).
+    * `toF (w 0) = 0`: row 0 of the loop is wired to the constant-zero witness (index 0) as the
+      initial accumulator of all three chains; its value is pinned by row 0 of
+      `Composer::initialized()`, not by the component.
+    * completeness: `a, b < c.wit.size` (the inputs were allocated) and `c.val 0 = 0`.
+    * `logic_exact`: `a = 0 → va = 0`, `b = 0 → vb = 0` (an input that *is* the zero witness can
+      only carry 0) and `a = b → va = vb` (the same witness cannot carry two values); `va, vb, v`
+      canonical (`< R`).
+  Remarks.
+    * The accumulators are **not** range-checked by a separate gadget: the bound
+      `acc < 4^pairs` that `bind_truncation_split` needs for its `low` argument (it does not
+      range-check `low` itself) is a consequence of the logic rows (`logic_chain_sound_val`);
+      this is where `pairs ≤ 127` (`4^127 < R`) is used, together with `2·pairs ≤ 254` for the
+      canonical-split guard.
+    * `pairs = 0` (`logic_zero_pairs`): one unselected row, the zero witness is returned and
+      nothing is constrained about `a`, `b` — consistent with the statement (`x % 4^0 = 0`).
+-/
+import Plonk.Proofs.Logic
 namespace Plonk.Props.C10
-open Plonk
-theorem placeholder_bounds : Generated.RANGE_MAX_BITS = 256 ∧ Generated.LOGIC_MAX_PAIRS = 127 ∧ Generated.TRUNCATE_MAX_BITS = 254 ∧ Generated.SPLIT_TOTAL_BITS = 255 := by decide
+open Plonk Plonk.Composer
+
+/-! ## what is appended -/
+
+/-- `append_logic_component` only appends: `c'` extends `c`; the numbers of gates and witnesses
+    appended are functions of `pairs` alone (`pairs + 1` rows and `4·pairs` witnesses for the
+    loop and its closing row, plus two `bind_truncation_split` blocks when `pairs ≠ 0`); the last
+    appended gate is plain (it reads no next-row wire, so whatever is appended later does not
+    disturb the component); well-formedness `WF` (which contains `PiFresh`) is preserved; the
+    returned index is the zero witness for `pairs = 0`, else the last output accumulator. -/
+theorem logic_extends (c : Composer) (pairs a b : Nat) (isXor : Bool) :
+    Extends c ((appendLogicComponent pairs a b isXor).run c).2 ∧
+    ((appendLogicComponent pairs a b isXor).run c).2.gates.size
+      = c.gates.size + logicGateCount pairs ∧
+    ((appendLogicComponent pairs a b isXor).run c).2.wit.size
+      = c.wit.size + logicWitCount pairs ∧
+    (∀ i, i + 1 = ((appendLogicComponent pairs a b isXor).run c).2.gates.size →
+      Gate.plain (((appendLogicComponent pairs a b isXor).run c).2.gateAt i)) ∧
+    (WF c → WF ((appendLogicComponent pairs a b isXor).run c).2) ∧
+    ((appendLogicComponent pairs a b isXor).run c).1
+      = (if pairs = 0 then 0 else c.wit.size + 4 * (pairs - 1) + 3) := by
+  rw [appendLogicComponent_snd, appendLogicComponent_fst]
+  exact ⟨logicOut_extends pairs a b isXor c, logicOut_gates_size pairs a b isXor c,
+    logicOut_wit_size pairs a b isXor c, logicOut_lastPlain pairs a b isXor c,
+    logicOut_wf pairs a b isXor c, rfl⟩
+
+/-- the counts -/
+theorem logic_counts (pairs : Nat) :
+    logicGateCount pairs = pairs + 1 + (if pairs = 0 then 0 else 2 * btsGateCount (pairs * 2)) ∧
+    logicWitCount pairs = 4 * pairs + (if pairs = 0 then 0 else 2 * btsWitCount (pairs * 2)) :=
+  ⟨rfl, rfl⟩
+
+/-- non-vacuity: sizes for `pairs = 0, 2, 32` (`u64` operands); `initialized` is well-formed -/
+example : logicGateCount 0 = 1 ∧ logicWitCount 0 = 0 ∧
+    logicGateCount 2 = 3 + 2 * btsGateCount 4 ∧ logicWitCount 32 = 128 + 2 * btsWitCount 64 ∧
+    WF initialized :=
+  ⟨rfl, rfl, rfl, rfl, initialized_wf⟩
+
+/-! ## soundness -/
+
+/-- **Soundness.**  For every `pairs ≤ 127` and *every* assignment `w` (accumulators, product
+    wires, truncation helpers all prover-chosen) with the zero witness equal to 0: if the rows
+    appended by the component hold under `w` — read in `c'` or in any later state `c''` — then
+    the canonical value of the returned witness is `op` of the canonical values of the two inputs
+    reduced modulo `4^pairs`.  So no satisfying assignment has any other output. -/
+theorem logic_sound (c : Composer) (pairs a b : Nat) (isXor : Bool)
+    (hp : pairs ≤ Generated.LOGIC_MAX_PAIRS) (h : WF c) (c'' : Composer)
+    (hext : Extends ((appendLogicComponent pairs a b isXor).run c).2 c'')
+    (w : Nat → Nat) (h0 : toF (w 0) = 0)
+    (hrows : c''.rowsHoldW w c.gates.size
+      ((appendLogicComponent pairs a b isXor).run c).2.gates.size) :
+    (toF (w ((appendLogicComponent pairs a b isXor).run c).1)).val =
+      logicOp isXor ((toF (w a)).val % 4 ^ pairs) ((toF (w b)).val % 4 ^ pairs) := by
+  rw [appendLogicComponent_snd] at hext hrows
+  rw [appendLogicComponent_fst]
+  exact logicOut_sound pairs a b isXor c hp h hext w h0 hrows
+
+/-- soundness of `append_logic_and::<pairs>`: bitwise AND of the low `2·pairs` bits -/
+theorem logic_and_sound (c : Composer) (pairs a b : Nat)
+    (hp : pairs ≤ Generated.LOGIC_MAX_PAIRS) (h : WF c) (c'' : Composer)
+    (hext : Extends ((appendLogicComponent pairs a b false).run c).2 c'')
+    (w : Nat → Nat) (h0 : toF (w 0) = 0)
+    (hrows : c''.rowsHoldW w c.gates.size
+      ((appendLogicComponent pairs a b false).run c).2.gates.size) :
+    (toF (w ((appendLogicComponent pairs a b false).run c).1)).val =
+      ((toF (w a)).val % 2 ^ (2 * pairs)) &&& ((toF (w b)).val % 2 ^ (2 * pairs)) := by
+  rw [← four_pow_eq]
+  exact logic_sound c pairs a b false hp h c'' hext w h0 hrows
+
+/-- soundness of `append_logic_xor::<pairs>`: bitwise XOR of the low `2·pairs` bits -/
+theorem logic_xor_sound (c : Composer) (pairs a b : Nat)
+    (hp : pairs ≤ Generated.LOGIC_MAX_PAIRS) (h : WF c) (c'' : Composer)
+    (hext : Extends ((appendLogicComponent pairs a b true).run c).2 c'')
+    (w : Nat → Nat) (h0 : toF (w 0) = 0)
+    (hrows : c''.rowsHoldW w c.gates.size
+      ((appendLogicComponent pairs a b true).run c).2.gates.size) :
+    (toF (w ((appendLogicComponent pairs a b true).run c).1)).val =
+      ((toF (w a)).val % 2 ^ (2 * pairs)) ^^^ ((toF (w b)).val % 2 ^ (2 * pairs)) := by
+  rw [← four_pow_eq]
+  exact logic_sound c pairs a b true hp h c'' hext w h0 hrows
+
+/-! ## completeness -/
+
+/-- **Completeness.**  For a well-formed state with both inputs allocated and the zero witness
+    at 0, and *any* values of the inputs, the model's own witness table satisfies every appended
+    row — read in `c'` or in any later state `c''` — and the returned witness holds
+    `op (a mod 4^pairs) (b mod 4^pairs)`. -/
+theorem logic_complete (c : Composer) (pairs a b : Nat) (isXor : Bool)
+    (hp : pairs ≤ Generated.LOGIC_MAX_PAIRS) (h : WF c) (ha : a < c.wit.size)
+    (hb : b < c.wit.size) (hz : c.val 0 = 0) (c'' : Composer)
+    (hext : Extends ((appendLogicComponent pairs a b isXor).run c).2 c'') :
+    c''.rowsHoldW c''.val c.gates.size
+      ((appendLogicComponent pairs a b isXor).run c).2.gates.size ∧
+    ((appendLogicComponent pairs a b isXor).run c).2.val
+        ((appendLogicComponent pairs a b isXor).run c).1 =
+      logicOp isXor (c.val a % 4 ^ pairs) (c.val b % 4 ^ pairs) := by
+  rw [appendLogicComponent_snd] at hext ⊢
+  rw [appendLogicComponent_fst]
+  exact ⟨logicOut_complete pairs a b isXor c hp h ha hb hz hext,
+    logicOut_val_out pairs a b isXor c hp (by omega) hz⟩
+
+/-- non-vacuity of soundness and completeness together: on `initialized` witness 2 holds 6 and
+    witness 4 holds 7; the 2-pair AND component on them is satisfied by the model's own table,
+    and soundness applied to that table gives the output `(6 % 16) &&& (7 % 16)`. -/
+example :
+    (toF (((appendLogicComponent 2 2 4 false).run initialized).2.val
+        ((appendLogicComponent 2 2 4 false).run initialized).1)).val =
+      logicOp false
+        ((toF (((appendLogicComponent 2 2 4 false).run initialized).2.val 2)).val % 4 ^ 2)
+        ((toF (((appendLogicComponent 2 2 4 false).run initialized).2.val 4)).val % 4 ^ 2) :=
+  logic_sound initialized 2 2 4 false (by decide) initialized_wf _ (Extends.refl _) _
+    (by rw [(logic_extends initialized 2 2 4 false).1.val_eq (by rw [initialized_wit_size]; norm_num),
+          initialized_val_zero]; simp)
+    (logic_complete initialized 2 2 4 false (by decide) initialized_wf
+      (by rw [initialized_wit_size]; norm_num) (by rw [initialized_wit_size]; norm_num)
+      initialized_val_zero _ (Extends.refl _)).1
+
+/-! ## `pairs = 0` -/
+
+/-- With zero pairs the component appends one unselected row, allocates nothing, returns the
+    zero witness, and constrains nothing: *every* assignment satisfies the appended row (in
+    particular nothing is implied about `a`, `b`). -/
+theorem logic_zero_pairs (c : Composer) (a b : Nat) (isXor : Bool) (hpi : PiFresh c) :
+    ((appendLogicComponent 0 a b isXor).run c).1 = 0 ∧
+    ((appendLogicComponent 0 a b isXor).run c).2.gates.size = c.gates.size + 1 ∧
+    ((appendLogicComponent 0 a b isXor).run c).2.wit.size = c.wit.size ∧
+    ∀ w : Nat → Nat, ((appendLogicComponent 0 a b isXor).run c).2.rowsHoldW w c.gates.size
+      ((appendLogicComponent 0 a b isXor).run c).2.gates.size := by
+  rw [appendLogicComponent_snd, appendLogicComponent_fst]
+  refine ⟨rfl, logicOut_gates_size 0 a b isXor c, logicOut_wit_size 0 a b isXor c, fun w => ?_⟩
+  rw [logicOut_gates_size]
+  exact (logicCore_rows_iff 0 a b isXor c hpi _
+    (by rw [logicOut_zero _ _ _ _ _ rfl]; exact Extends.refl _) w).mpr
+    (fun j hj => absurd hj (Nat.not_lt_zero j))
+
+/-- non-vacuity: on `initialized`, even the assignment that gives every witness the value 1 (so
+    `a = b = 1`, output wire `0 ↦ 1`) satisfies the row appended by the 0-pair component -/
+example : ((appendLogicComponent 0 2 4 true).run initialized).2.rowsHoldW (fun _ => 1)
+    initialized.gates.size ((appendLogicComponent 0 2 4 true).run initialized).2.gates.size :=
+  (logic_zero_pairs initialized 2 4 true initialized_wf.pis_zero).2.2.2 _
+
+/-! ## the property -/
+
+/-- **C10, exact characterisation for a fixed circuit.**  For every `pairs ≤ 127`, canonical
+    input values `va`, `vb` and canonical `v`: an assignment that gives `a`, `b` the values `va`,
+    `vb` (zero witness 0), gives the returned witness the value `v`, and satisfies every row of
+    the component exists **iff** `v = op (va mod 4^pairs) (vb mod 4^pairs)`.
+    (⇐ : satisfiable for all inputs, with the right output; ⇒ : no satisfying assignment in
+    which the returned witness holds any other value.) -/
+theorem logic_exact (c : Composer) (pairs a b : Nat) (isXor : Bool)
+    (hp : pairs ≤ Generated.LOGIC_MAX_PAIRS) (h : WF c) (ha : a < c.wit.size)
+    (hb : b < c.wit.size) (va vb v : Nat) (hva : va < R) (hvb : vb < R) (hv : v < R)
+    (ha0 : a = 0 → va = 0) (hb0 : b = 0 → vb = 0) (hab : a = b → va = vb) :
+    (∃ w : Nat → Nat, w a = va ∧ w b = vb ∧ w 0 = 0 ∧
+        w ((appendLogicComponent pairs a b isXor).run c).1 = v ∧
+        ((appendLogicComponent pairs a b isXor).run c).2.rowsHoldW w c.gates.size
+          ((appendLogicComponent pairs a b isXor).run c).2.gates.size)
+      ↔ v = logicOp isXor (va % 4 ^ pairs) (vb % 4 ^ pairs) := by
+  constructor
+  · rintro ⟨w, hwa, hwb, hw0, hwo, hrows⟩
+    have := logic_sound c pairs a b isXor hp h _ (Extends.refl _) w (by rw [hw0]; simp) hrows
+    rwa [hwo, hwa, hwb, val_toF_of_lt hv, val_toF_of_lt hva, val_toF_of_lt hvb] at this
+  · intro hvv
+    obtain ⟨w, h1, h2, h3, h4, h5⟩ :=
+      logicOut_exists pairs a b isXor c hp h ha hb va vb hva hvb ha0 hb0 hab
+    rw [appendLogicComponent_snd, appendLogicComponent_fst]
+    exact ⟨w, h1, h2, h3, by rw [h4, hvv], h5⟩
+
+/-- **C10 for `append_logic_and`**: satisfiable with output `v` iff `v` is the bitwise AND of the
+    low `2·pairs` bits of the inputs. -/
+theorem logic_and_exact (c : Composer) (pairs a b : Nat)
+    (hp : pairs ≤ Generated.LOGIC_MAX_PAIRS) (h : WF c) (ha : a < c.wit.size)
+    (hb : b < c.wit.size) (va vb v : Nat) (hva : va < R) (hvb : vb < R) (hv : v < R)
+    (ha0 : a = 0 → va = 0) (hb0 : b = 0 → vb = 0) (hab : a = b → va = vb) :
+    (∃ w : Nat → Nat, w a = va ∧ w b = vb ∧ w 0 = 0 ∧
+        w ((appendLogicComponent pairs a b false).run c).1 = v ∧
+        ((appendLogicComponent pairs a b false).run c).2.rowsHoldW w c.gates.size
+          ((appendLogicComponent pairs a b false).run c).2.gates.size)
+      ↔ v = (va % 2 ^ (2 * pairs)) &&& (vb % 2 ^ (2 * pairs)) := by
+  rw [← four_pow_eq]
+  exact logic_exact c pairs a b false hp h ha hb va vb v hva hvb hv ha0 hb0 hab
+
+/-- **C10 for `append_logic_xor`**: satisfiable with output `v` iff `v` is the bitwise XOR of the
+    low `2·pairs` bits of the inputs. -/
+theorem logic_xor_exact (c : Composer) (pairs a b : Nat)
+    (hp : pairs ≤ Generated.LOGIC_MAX_PAIRS) (h : WF c) (ha : a < c.wit.size)
+    (hb : b < c.wit.size) (va vb v : Nat) (hva : va < R) (hvb : vb < R) (hv : v < R)
+    (ha0 : a = 0 → va = 0) (hb0 : b = 0 → vb = 0) (hab : a = b → va = vb) :
+    (∃ w : Nat → Nat, w a = va ∧ w b = vb ∧ w 0 = 0 ∧
+        w ((appendLogicComponent pairs a b true).run c).1 = v ∧
+        ((appendLogicComponent pairs a b true).run c).2.rowsHoldW w c.gates.size
+          ((appendLogicComponent pairs a b true).run c).2.gates.size)
+      ↔ v = (va % 2 ^ (2 * pairs)) ^^^ (vb % 2 ^ (2 * pairs)) := by
+  rw [← four_pow_eq]
+  exact logic_exact c pairs a b true hp h ha hb va vb v hva hvb hv ha0 hb0 hab
+
+/-- non-vacuity, both sides of the equivalence, with a genuine truncation: on `initialized` with
+    `a = 2`, `b = 4` and one bit pair, for the input values `6 = 0b110` and `7 = 0b111` the output
+    `2 = (6 % 4) &&& (7 % 4)` is reachable, and the untruncated `6 = 6 &&& 7` is not. -/
+example :
+    (∃ w : Nat → Nat, w 2 = 6 ∧ w 4 = 7 ∧ w 0 = 0 ∧
+      w ((appendLogicComponent 1 2 4 false).run initialized).1 = 2 ∧
+      ((appendLogicComponent 1 2 4 false).run initialized).2.rowsHoldW w initialized.gates.size
+        ((appendLogicComponent 1 2 4 false).run initialized).2.gates.size) ∧
+    ¬ (∃ w : Nat → Nat, w 2 = 6 ∧ w 4 = 7 ∧ w 0 = 0 ∧
+      w ((appendLogicComponent 1 2 4 false).run initialized).1 = 6 ∧
+      ((appendLogicComponent 1 2 4 false).run initialized).2.rowsHoldW w initialized.gates.size
+        ((appendLogicComponent 1 2 4 false).run initialized).2.gates.size) := by
+  have h2 : 2 < initialized.wit.size := by rw [initialized_wit_size]; norm_num
+  have h4 : 4 < initialized.wit.size := by rw [initialized_wit_size]; norm_num
+  constructor
+  · exact (logic_and_exact initialized 1 2 4 (by decide) initialized_wf h2 h4 6 7 2
+      (by decide +kernel) (by decide +kernel) (by decide +kernel) (by decide) (by decide)
+      (by decide)).mpr (by decide)
+  · rw [logic_and_exact initialized 1 2 4 (by decide) initialized_wf h2 h4 6 7 6
+      (by decide +kernel) (by decide +kernel) (by decide +kernel) (by decide) (by decide)
+      (by decide)]
+    decide
+
+/-- non-vacuity for XOR over two pairs: `(6 % 16) ^^^ (7 % 16) = 1` is the only reachable output -/
+example (v : Nat) (hv : v < R) :
+    (∃ w : Nat → Nat, w 2 = 6 ∧ w 4 = 7 ∧ w 0 = 0 ∧
+      w ((appendLogicComponent 2 2 4 true).run initialized).1 = v ∧
+      ((appendLogicComponent 2 2 4 true).run initialized).2.rowsHoldW w initialized.gates.size
+        ((appendLogicComponent 2 2 4 true).run initialized).2.gates.size) ↔ v = 1 := by
+  have h2 : 2 < initialized.wit.size := by rw [initialized_wit_size]; norm_num
+  have h4 : 4 < initialized.wit.size := by rw [initialized_wit_size]; norm_num
+  rw [logic_xor_exact initialized 2 2 4 (by decide) initialized_wf h2 h4 6 7 v
+      (by decide +kernel) (by decide +kernel) hv (by decide) (by decide) (by decide)]
+  have : (6 % 2 ^ (2 * 2)) ^^^ (7 % 2 ^ (2 * 2)) = 1 := by decide
+  rw [this]
+
 end Plonk.Props.C10
